@@ -219,8 +219,13 @@ package keyvalue
 //@ spec isMemRec(rec FileRecord) := isType(rec, mem.fileRecord)
 //@ spec memRecWF(rec FileRecord) := rec.(mem.fileRecord).data != nil && rec.(mem.fileRecord).store != nil
 //@ spec rawData(rec FileRecord) := ite(isMemRec(rec), rec.(mem.fileRecord).data, ret("keyvalue.(FileRecord).Data", 0, rec))
-//@ spec rawDataErr(rec FileRecord) := ite(isMemRec(rec), nil, ret("keyvalue.(FileRecord).Data", 1, rec))
+//@ spec rawDataErr(rec FileRecord) := ite(isMemRec(rec) || isNewRec(rec), nil, ret("keyvalue.(FileRecord).Data", 1, rec))
 //@ spec isBaseRec(rec FileRecord) := isType(rec, *BaseFileRecord)
+// A record made by FS.newFile: its data getter is the literal returning blob.NewBytes(nil); its data has no value
+// before the first load, which yields a fresh, empty, unlocked *blob.Bytes.
+//@ spec isNewRec(rec FileRecord) := isBaseRec(rec) && rec.(*BaseFileRecord) != nil && rec.(*BaseFileRecord).getData != nil && emptyblobfn(rec.(*BaseFileRecord).getData)
+//@ spec freshEmpty(b blob.Blob) := isType(b, *blob.Bytes) && b.(*blob.Bytes) != nil && fresh(b.(*blob.Bytes)) && blob.blobOK(b) && blob.blobLen(b) == 0 && !blob.blobLocked(b)
+//@ spec emptyBytes(b blob.Blob) := isType(b, *blob.Bytes) && b.(*blob.Bytes) != nil && allocated(b.(*blob.Bytes)) && blob.blobOK(b) && blob.blobLen(b) == 0 && !blob.blobLocked(b)
 //@ spec rawMode(rec FileRecord) := ite(isMemRec(rec), rec.(mem.fileRecord).mode, ite(isBaseRec(rec), rec.(*BaseFileRecord).mode, ret("keyvalue.(FileRecord).Mode", 0, rec)))
 //@ spec rawMTime(rec FileRecord) := ite(isMemRec(rec), rec.(mem.fileRecord).modTime, ite(isBaseRec(rec), rec.(*BaseFileRecord).modTime, ret("keyvalue.(FileRecord).ModTime", 0, rec)))
 
@@ -229,7 +234,8 @@ package keyvalue
 //@ func (b *BaseFileRecord) Data() (bl blob.Blob, err error)
 //@   assumed
 //@   requires b != nil
-//@   ensures "as-interface" bl == ret("keyvalue.(FileRecord).Data", 0, FileRecord(b)) && err == ret("keyvalue.(FileRecord).Data", 1, FileRecord(b)) && implies(err == nil, bl != nil)
+//@   ensures "as-interface" implies(!isNewRec(FileRecord(b)), bl == ret("keyvalue.(FileRecord).Data", 0, FileRecord(b)) && err == ret("keyvalue.(FileRecord).Data", 1, FileRecord(b)) && implies(err == nil, bl != nil))
+//@   ensures "new-record" implies(isNewRec(FileRecord(b)), err == nil && freshEmpty(bl))
 //@ func (b *BaseFileRecord) Mode() (m hackpadfs.FileMode)
 //@   inline
 //@ func (b *BaseFileRecord) ModTime() (t time.Time)
@@ -240,11 +246,12 @@ package keyvalue
 //@ spec curBlobTag(r *runOnceFileRecord) := ite(r.dataDone == 1, tag(r.data), tag(recDataBlob(r)))
 
 //@ func (r *runOnceFileRecord) Data() (b blob.Blob, err error)
-//@   dispatch FileRecord mem.fileRecord
+//@   dispatch FileRecord mem.fileRecord *BaseFileRecord
 //@   props C02 C14 C17
 //@   requires roInv(r)
 //@   modifies r.data, r.dataErr, r.dataDone, oncedone(r.dataOnce)
-//@   ensures "first" implies(!old(oncedone(r.dataOnce)), b == old(recDataBlob(r)) && err == old(recDataErr(r)))
+//@   ensures "first" implies(!old(oncedone(r.dataOnce)) && !isNewRec(r.record), b == old(recDataBlob(r)) && err == old(recDataErr(r)))
+//@   ensures "first-new" implies(!old(oncedone(r.dataOnce)) && isNewRec(r.record), err == nil && freshEmpty(b))
 //@   ensures "cached" implies(old(oncedone(r.dataOnce)), b == old(r.data) && err == old(r.dataErr))
 //@   ensures "state" r.data == b && r.dataErr == err && r.dataDone == 1 && oncedone(r.dataOnce) && r.record == old(r.record)
 //@   ensures "result" implies(err == nil, b != nil) && roInv(r)
@@ -320,6 +327,8 @@ package keyvalue
 //@ spec fdData(d *fileData) := ite(d.runOnceFileRecord.dataDone == 1, d.runOnceFileRecord.data, recDataBlob(d.runOnceFileRecord))
 //@ spec fdDataErr(d *fileData) := ite(d.runOnceFileRecord.dataDone == 1, d.runOnceFileRecord.dataErr, recDataErr(d.runOnceFileRecord))
 //@ spec fdInv(d *fileData) := d != nil && roInv(d.runOnceFileRecord)
+//@ spec fdNew(d *fileData) := d.runOnceFileRecord.dataDone == 0 && isNewRec(d.runOnceFileRecord.record)
+//@ spec srcNew(src FileRecord) := (isType(src, *fileData) && fdNew(src.(*fileData))) || isNewRec(src)
 //@ spec srcOK(src FileRecord) := implies(isType(src, *fileData), fdInv(src.(*fileData))) && implies(isMemRec(src), memRecWF(src)) && implies(isBaseRec(src), src.(*BaseFileRecord) != nil)
 //@ spec srcMode(src FileRecord) := ite(isType(src, *fileData), fdMode(src.(*fileData)), rawMode(src))
 //@ spec srcMTime(src FileRecord) := ite(isType(src, *fileData), fdMTime(src.(*fileData)), rawMTime(src))
@@ -330,7 +339,7 @@ package keyvalue
 
 //@ spec fRec(f *file) := f.fileData.runOnceFileRecord
 //@ spec fsOK(fs *FS) := fsInv(fs) && (isMem(fs) || isSerial(fs))
-//@ spec fileInv(f *file) := f != nil && f.fileData != nil && fsOK(f.fileData.fs) && VP(f.fileData.path) && roInv(fRec(f)) && f.offset >= 0
+//@ spec fileInv(f *file) := f != nil && f.fileData != nil && fsOK(f.fileData.fs) && VP(f.fileData.path) && roInv(fRec(f)) && f.offset >= 0 && !fdNew(f.fileData)
 //@ spec hData(f *file) := ite(fRec(f).dataDone == 1, fRec(f).data, recDataBlob(fRec(f)))
 //@ spec hDataErr(f *file) := ite(fRec(f).dataDone == 1, fRec(f).dataErr, recDataErr(fRec(f)))
 //@ spec hDataOK(f *file) := implies(hDataErr(f) == nil, blob.blobOK(hData(f)) && !blob.blobLocked(hData(f)) && isType(hData(f), *blob.Bytes)) && (payload(hData(f)) == 0 || allocated(payload(hData(f))))
@@ -447,8 +456,9 @@ package keyvalue
 //@        implies(old(oncedone(r.modeOnce)), oncedone(r.modeOnce) && r.mode == old(r.mode)) &&
 //@        implies(old(oncedone(r.modTimeOnce)), oncedone(r.modTimeOnce) && r.modTime == old(r.modTime))
 //@ spec srcKept(src FileRecord) := implies(isType(src, *fileData), cacheMono(src.(*fileData).runOnceFileRecord)) &&
-//@        implies(src != nil && world() == old(world()), srcData(src) == old(srcData(src)) && srcDataErr(src) == old(srcDataErr(src)) && srcMode(src) == old(srcMode(src)) &&
-//@        srcMTime(src) == old(srcMTime(src)) && srcOK(src))
+//@        implies(src != nil && world() == old(world()), srcDataErr(src) == old(srcDataErr(src)) && srcMode(src) == old(srcMode(src)) && srcMTime(src) == old(srcMTime(src)) && srcOK(src) &&
+//@                implies(!old(srcNew(src)), srcData(src) == old(srcData(src))) &&
+//@                implies(old(srcNew(src)) && isType(src, *fileData), srcNew(src) || (fdCache(src).dataDone == 1 && fdCache(src).dataErr == nil && emptyBytes(fdCache(src).data) && fresh(fdCache(src).data.(*blob.Bytes)))))
 
 //@ func firstOpErr(results []OpResult) (err error)
 //@   props C14
@@ -459,6 +469,7 @@ package keyvalue
 //@   ensures "second" implies(len(results) > 1 && results[0].Err == nil && results[1].Err != nil, err == results[1].Err)
 //@   pure
 //@   nopanic
+
 
 // setFile: one read-write transaction holding a single Set. FS operations validate the path before they get here.
 //@ func (fs *FS) setFile(path string, file FileRecord) (err error)
@@ -477,7 +488,7 @@ package keyvalue
 //@   ensures "mem-delete" implies(isMem(fs) && file == nil, err == nil && !kvHas(fs, path) && memSameExcept(fs, path) && world() == old(world()))
 //@   ensures "mem-store" implies(isMem(fs) && file != nil && old(srcDataErr(file)) == nil, err == nil && kvHas(fs, path) && memSameExcept(fs, path) && world() == old(world()) &&
 //@                     isType(kvRec(fs, path), mem.fileRecord) && memRec(fs, path).store == ms(fs) && memRec(fs, path).path == path &&
-//@                     memRec(fs, path).data == old(srcData(file)) && memRec(fs, path).mode == old(srcMode(file)) && memRec(fs, path).modTime == old(srcMTime(file)))
+//@                     mem.storedData(memRec(fs, path).data, file) && memRec(fs, path).mode == old(srcMode(file)) && memRec(fs, path).modTime == old(srcMTime(file)))
 //@   ensures "serial-set" implies(isSerial(fs) && (file == nil || old(srcDataErr(file)) == nil || !isReg(old(srcMode(file)))),
 //@                     err == old(storeSetErr(fsStore(fs), path, file)) && world() == old(storeSetW(fsStore(fs), path, file)))
 //@   ensures "accepted" [C14] implies(err == nil && isSerial(fs), old(storeSetErr(fsStore(fs), path, file)) == nil)
@@ -878,7 +889,7 @@ package keyvalue
 //@ spec baseOf(f *file) := fRec(f).record.(*BaseFileRecord)
 //@ spec newHandle(f *file, fs *FS, path string, flag int, mode hackpadfs.FileMode) := f != nil && fresh(f) && f.fileData != nil && fresh(f.fileData) && f.fileData.path == path && f.fileData.fs == fs &&
 //@        f.flag == flag && f.offset == 0 && !f.closed && f.fileData.modeOverride == nil && f.fileData.modTimeOverride == 0 &&
-//@        isBaseRec(fRec(f).record) && baseOf(f) != nil && fresh(baseOf(f)) && baseOf(f).mode == mode &&
+//@        isBaseRec(fRec(f).record) && baseOf(f) != nil && fresh(baseOf(f)) && baseOf(f).mode == mode && isNewRec(fRec(f).record) &&
 //@        fRec(f).dataDone == 0 && !oncedone(fRec(f).dataOnce) && !oncedone(fRec(f).dirNamesOnce) && !oncedone(fRec(f).modeOnce) && !oncedone(fRec(f).modTimeOnce) && !oncedone(fRec(f).sysOnce)
 
 //@ func (fs *FS) newFile(path string, flag int, mode hackpadfs.FileMode) (f *file)
@@ -907,8 +918,8 @@ package keyvalue
 //@   ensures "mem-parent-not-dir" [C01 C03] implies(VP(name) && isMem(fs) && !old(kvHas(fs, name)) && name != "." && old(kvHas(fs, pdir(name))) && !old(memIsDir(fs, pdir(name))),
 //@                     errIs(err, hackpadfs.ErrNotDir) && memSame(fs))
 //@   ensures "mem-created" [C01 C03] implies(VP(name) && isMem(fs) && !old(kvHas(fs, name)) && (name == "." || (old(kvHas(fs, pdir(name))) && old(memIsDir(fs, pdir(name))))),
-//@                     implies(err == nil, kvHas(fs, name) && memSameExcept(fs, name) && isType(kvRec(fs, name), mem.fileRecord) &&
-//@                     memRec(fs, name).mode == hackpadfs.ModeDir | (perm & hackpadfs.ModePerm)) && implies(err != nil, memSame(fs)))
+//@                     err == nil && kvHas(fs, name) && memSameExcept(fs, name) && isType(kvRec(fs, name), mem.fileRecord) &&
+//@                     memRec(fs, name).mode == hackpadfs.ModeDir | (perm & hackpadfs.ModePerm) && emptyBytes(memRec(fs, name).data))
 //@   ensures "mem-world" implies(isMem(fs), world() == old(world()))
 //@   ensures "store-error" [C14] implies(VP(name) && isSerial(fs) && err == nil, errIs(old(storeGetErr(fsStore(fs), name)), hackpadfs.ErrNotExist))
 //@   ensures "inv" fsInv(fs)
@@ -955,5 +966,41 @@ package keyvalue
 //@   ensures "gate" [C04] implies(exists(j, 0, len(paths), !VP(paths[j])), errs[0] == hackpadfs.ErrInvalid && forall(j, 0, len(paths), files[j] == nil))
 //@   ensures "handles" implies(forall(j, 0, len(paths), VP(paths[j])), forall(j, 0, len(paths), handleFor(files[j], errs[j], fs, paths[j])))
 //@   ensures "distinct" [C17] implies(forall(j, 0, len(paths), VP(paths[j])), forall(j, 0, len(paths), forall(k, 0, j, files[j] != files[k] && files[j].fileData != files[k].fileData)))
+//@   ensures "inv" fsMem(fs)
+//@   nopanic
+
+//@ spec wantsWrite(flag int) := flag & (hackpadfs.FlagWriteOnly | hackpadfs.FlagReadWrite | hackpadfs.FlagCreate | hackpadfs.FlagTruncate) != 0
+//@ spec isCreate(flag int) := flag & hackpadfs.FlagCreate != 0
+//@ spec openedFile(h hackpadfs.File) := ite(isType(h, *writeOnlyFile), h.(*writeOnlyFile).file, ite(isType(h, *readOnlyFile), h.(*readOnlyFile).file, h.(*file)))
+//@ spec dataOKRec(rec FileRecord) := blob.blobOK(rawData(rec)) && !blob.blobLocked(rawData(rec)) && isType(rawData(rec), *blob.Bytes) && allocated(payload(rawData(rec)))
+
+//@ func (fs *FS) OpenFile(name string, flag int, perm hackpadfs.FileMode) (afFile hackpadfs.File, retErr error)
+//@   props C01 C02 C03 C04 C05 C14 C17
+//@   requires fsMem(fs)
+//@   requires "trunc-data-ok" implies(flag & hackpadfs.FlagTruncate != 0 && kvHas(fs, name), dataOKRec(kvRec(fs, name)))
+//@   use dirValid(name)
+//@   dispatch hackpadfs.FileInfo fileInfo
+//@   dispatch FileRecord *fileData
+//@   modifies world(), mapOf(ms(fs).records), garr("blobAt", payload(rawData(kvRec(fs, name)))), gint("blobLen", payload(rawData(kvRec(fs, name)))),
+//@            rawData(kvRec(fs, name)).(*blob.Bytes).bytes, rawData(kvRec(fs, name)).(*blob.Bytes).length, elems(rawData(kvRec(fs, name)).(*blob.Bytes).bytes)
+//@   ensures "gate" [C04] implies(!VP(name), afFile == nil && pathErr(retErr, "open", name) && errIs(retErr, hackpadfs.ErrInvalid) && memSame(fs))
+//@   ensures "typed" [C05] implies(retErr != nil, pathErr(retErr, "open", name))
+//@   ensures "excl" [C01] implies(VP(name) && old(kvHas(fs, name)) && isCreate(flag) && flag & hackpadfs.FlagExclusive != 0, errIs(retErr, hackpadfs.ErrExist) && memSame(fs))
+//@   ensures "isdir" [C01] implies(VP(name) && old(kvHas(fs, name)) && old(memIsDir(fs, name)) && wantsWrite(flag) && !(isCreate(flag) && flag & hackpadfs.FlagExclusive != 0),
+//@                     errIs(retErr, hackpadfs.ErrIsDir) && memSame(fs))
+//@   ensures "missing" [C01] implies(VP(name) && !old(kvHas(fs, name)) && !isCreate(flag), errIs(retErr, hackpadfs.ErrNotExist) && memSame(fs))
+//@   ensures "no-parent" [C01 C03] implies(VP(name) && !old(kvHas(fs, name)) && isCreate(flag) && !old(kvHas(fs, pdir(name))), errIs(retErr, hackpadfs.ErrNotExist) && memSame(fs))
+//@   ensures "parent-not-dir" [C01 C03] implies(VP(name) && !old(kvHas(fs, name)) && isCreate(flag) && old(kvHas(fs, pdir(name))) && !old(memIsDir(fs, pdir(name))),
+//@                     errIs(retErr, hackpadfs.ErrNotDir) && memSame(fs))
+//@   ensures "created" [C01 C03] implies(VP(name) && !old(kvHas(fs, name)) && isCreate(flag) && old(kvHas(fs, pdir(name))) && old(memIsDir(fs, pdir(name))) && retErr == nil,
+//@                     kvHas(fs, name) && memSameExcept(fs, name) && isType(kvRec(fs, name), mem.fileRecord) && memRec(fs, name).mode == perm & hackpadfs.ModePerm)
+//@   ensures "existing-kept" [C01 C03] implies(VP(name) && old(kvHas(fs, name)), memSameExcept(fs, name) && kvHas(fs, name))
+//@   ensures "wrapper" [C02] implies(retErr == nil, afFile != nil &&
+//@                     iff(isType(afFile, *writeOnlyFile), flag & hackpadfs.FlagWriteOnly != 0) &&
+//@                     iff(isType(afFile, *file), flag & hackpadfs.FlagWriteOnly == 0 && flag & hackpadfs.FlagReadWrite != 0) &&
+//@                     iff(isType(afFile, *readOnlyFile), flag & hackpadfs.FlagWriteOnly == 0 && flag & hackpadfs.FlagReadWrite == 0))
+//@   ensures "handle" [C02 C17] implies(retErr == nil, openedFile(afFile) != nil && fresh(openedFile(afFile)) && !openedFile(afFile).closed && openedFile(afFile).offset == 0 &&
+//@                     openedFile(afFile).flag == flag && openedFile(afFile).fileData != nil && fresh(openedFile(afFile).fileData) && openedFile(afFile).fileData.path == name && openedFile(afFile).fileData.fs == fs)
+//@   ensures "mem-world" world() == old(world())
 //@   ensures "inv" fsMem(fs)
 //@   nopanic
